@@ -2,6 +2,7 @@
 
 Manual mode and single-thread start(awaitable) mode under virtual time (thread / thread-pool mode is a
 separate model on top of the same heap operators of spec/Scheduler/Scheduler.tla)."""
+import fastcover
 import vlib
 from framework import graph_replay
 
@@ -47,9 +48,12 @@ def model(ctx, rp, cfg, tag, consts, must, max_paths=None, extra_random=0):
     def hdr(k, st0):
         return {"mode": consts["Mode"], "coro": bool(k % 2), "slots": consts["MaxSleeps"],
                 "interval": consts["Interval"], "nc": consts["NC"]}
-    return graph_replay(ctx, "Scheduler", "Scheduler", cfg, tag, rp, proj, header_fn=hdr, must_take=must,
-                        constants={k: fmt(v) for k, v in consts.items()}, max_paths=max_paths,
-                        extra_random=extra_random, replay_timeout=600)
+    # the state graphs are dense and cyclic (history-free state, ~20 calls possible in every state):
+    # vlib.cover_paths needs hours on them, see tools/fastcover.py
+    with fastcover.installed():
+        return graph_replay(ctx, "Scheduler", "Scheduler", cfg, tag, rp, proj, header_fn=hdr, must_take=must,
+                            constants={k: fmt(v) for k, v in consts.items()}, max_paths=max_paths,
+                            extra_random=extra_random, replay_timeout=600)
 
 
 def base(**kw):
